@@ -45,7 +45,7 @@ C03_Status(C, A, R) ==
       /\ (R.status = "Success" /\ ~C.hasT /\ C.x0.b # C.xend.b => Last(R.t).r >= C.m.xend_lo)       \* last sample is xend to rounding
       /\ (R.status = "Success" /\ C.x0.b # C.xend.b /\ C.n > 0 => A.maxEval >= C.m.xend_lo)             \* the interval was covered
       /\ (R.status = "UserInterrupt" <=> TermReached(C, R) # {})
-      /\ (R.status = "Success" /\ C.errctl => R.finite)
+      /\ (C.errctl => R.finite)       \* an error-controlled method never accepts a non-finite state: Success or not, the samples are finite
 
 (* ---------------------------------------------------------------- C04 *)
 C04_Returns(R) == R.e = "ret"                                \* not abort{budget|panic}
@@ -143,6 +143,7 @@ C19_Protocol(C, A, R) ==
       /\ A.cbBad = 0                                                            \* initial call, contiguity, interpolant bounds
       /\ A.afterStop = 0                                                        \* nothing after Interrupt
       /\ A.modBad = 0                                                           \* derivative re-evaluated at the written state
+      /\ A.derivBad = 0                                                         \* f(x_new, y_new) evaluated for every accepted step
       /\ (R.status = "UserInterrupt" <=> A.interrupted)
       /\ (R.status = "Success" => A.nCb >= 1 /\ A.lastX >= C.m.xend_lo /\ A.lastX <= C.m.xend_hi)
 
